@@ -12,6 +12,9 @@ def make_sim(name: str) -> Simulator:
     if name == "sime":
         from sims.sime.sim import SimE
         return SimE()
+    if name == "simr":
+        from sims.simr import SimR
+        return SimR()
     raise HarnessError(f"unknown simulator {name}")
 
 
@@ -55,6 +58,11 @@ for _p, _profiles in {"C06": ["control"], "C07": ["control", "run"], "C08": ["co
     _add(CheckSpec(property=_p, sim="sime", profiles=_profiles, runs_quick=3000, runs_thorough=300000,
                    level="exploration", rule="(filled per property)", assumptions=_E_ASSUME, wall_quick=45,
                    wall_thorough=1500))
+
+
+_add(CheckSpec(property="C27", sim="simr", profiles=["faulty", "faulty", "faultfree"], runs_quick=400, runs_thorough=40000,
+               level="fault_enumeration", rule="(filled)", assumptions=["(filled)"], wall_quick=50, wall_thorough=1500,
+               run_timeout=120))
 
 
 def get_spec(prop: str) -> CheckSpec:
